@@ -100,6 +100,8 @@ def gen_times(rng, n, t0, mode):
             t += rng.choice([0, 0, 0, 1, 2]) * gen.NS
         elif mode == "subsec":
             t += rng.choice([0, 1_000, 1_000_000, 999_999_000, 500_000_000])
+        elif mode == "subus":
+            t += rng.choice([0, 1, 1, 7, 999, 1000, 1001])
         elif mode == "spread":
             t += rng.randint(0, 5000) * gen.NS + rng.choice([0, 0, 123_456_000])
         else:
@@ -110,8 +112,10 @@ def gen_times(rng, n, t0, mode):
 
 def make_source(rng, sid, n, t0, tz_min, mode=None, notation=None, codec=None,
                 chrono=True, ncont_max=2, cont_class=None, body_len=None, trailing_newline=None):
-    mode = mode or rng.choice(["ties", "subsec", "spread", "dense"])
-    notation = notation or rng.choice(["iso_space", "iso_t_us_off", "iso_space_ms_off", "iso_t_z", "compact"])
+    mode = mode or rng.choice(["ties", "subsec", "subus", "spread", "dense"])
+    if notation is None:
+        notation = rng.choice(["iso_t_ns_off", "iso_space_ns"]) if mode == "subus" else rng.choice(
+            ["iso_space", "iso_t_us_off", "iso_space_ms_off", "iso_t_z", "compact", "iso_t_ns_off", "iso_space_ns"])
     fn, zoned, digits = gen.NOTATIONS[notation]
     ts = gen_times(rng, n, t0, mode)
     if not chrono:
